@@ -10,8 +10,8 @@ import impl_hist  # noqa: F401
 from framework import Case, Finding
 
 PROP = "C09"
-GENERATED = ['SharedState', 'SrcHints', 'SrcDecorate', 'SrcExpand', 'HintLoop', 'Core', 'Wrapper', 'Classes', 'Decorate', 'DtypeTables', 'ClassDecor', 'Resolve']  # generated files this check's tie depends on
-LEAN_MODULES = ["Properties.C09", "Properties.Prov.Hints", "Properties.Prov.Decorate", "Properties.Prov.Expand", "Properties.CoreHints", "Properties.Core", "Properties.CoreWrap", "Properties.CoreClasses", "Properties.CoreDecorate", "Properties.CoreClassDecor", "Properties.CoreResolve"]
+GENERATED = ['SharedState', 'SrcHints', 'SrcDecorate', 'SrcExpand', 'HintLoop', 'Core', 'Wrapper', 'Classes', 'Decorate', 'DtypeTables', 'ClassDecor', 'Resolve', 'SrcSurface']  # generated files this check's tie depends on
+LEAN_MODULES = ["Properties.C09", "Properties.Prov.Hints", "Properties.Prov.Decorate", "Properties.Prov.Expand", "Properties.CoreHints", "Properties.Core", "Properties.CoreWrap", "Properties.CoreClasses", "Properties.CoreDecorate", "Properties.CoreClassDecor", "Properties.CoreResolve", "Properties.Prov.Surface"]
 RULE = (
     "corpus (F8, F9 witnesses) first; seeded histories (length 12 quick / 40 thorough) over a family of <=6 functions sharing 2-3 annotation "
     "aliases and 3 providers (fresh dict per call, one long-lived dict, not a provider): decorations interleaved with accepted and rejected "
@@ -58,6 +58,7 @@ def search(run, tier):
 
     cands = [f for f in run.findings if f.kind == "broken-correspondence" and f.case is not None and f.case.line.startswith("HIST")]
     found = 0
+    found += _siblings_and_process(run, cands)
     for f in cands[:60]:
         steps = f.case.line.split("\t")[1:]
         io, mo = f.impl.split(" ## "), f.model.split(" ## ")
@@ -82,6 +83,24 @@ def search(run, tier):
                     Case(f.case.line, "history-dependence", {}), f.impl, f.model, "alone: " + "HIST\t" + "\t".join(alone)))
                 found += 1
                 break
+            # siblings: the same call with ONLY what takes part in it — the aliases its own hints name, its own declaration, the
+            # providers — none of the other annotation objects and functions of the history (which were created / decorated before it)
+            import re
+
+            fid0 = steps[si].split("|")[1]
+            d0 = next((j for j in range(si - 1, -1, -1) if steps[j].startswith(f"D|{fid0}|")), None)
+            if d0 is not None and steps[d0].split("|")[5] == "-":
+                used = set(re.findall(r"T\d+", "|".join(steps[d0].split("|")[3:5])))
+                minimal = [s for j, s in enumerate(steps[: si + 1]) if (s.startswith("A|") and s.split("|")[1] in used) or s.startswith(("V|", "S|")) or j == d0 or j == si]
+                v_m = impl.handle("HIST\t" + "\t".join(minimal)).split(" ## ")
+                if len(v_m) >= 2 and v_m[0] != io[k] and not v_m[0].startswith(("decor", "unknown", "bad-op")):
+                    from framework import Case, Finding
+
+                    run.findings.append(Finding("failing-input",
+                        f"the verdict of a call depends on annotation objects and functions that take no part in it: inside the history {io[k]!r}, with only its own aliases, declaration and "
+                        f"providers {v_m[0]!r}", Case(f.case.line, "sibling-dependence", {}), f.impl, f.model, "minimal: " + "HIST\t" + "\t".join(minimal)))
+                    found += 1
+                    break
             # nesting: the same call with every body made non-nesting; if the nested function alone accepts the
             # arguments, nesting / recursion must not change the outer verdict
             fid = steps[si].split("|")[1]
@@ -105,6 +124,55 @@ def search(run, tier):
         if found >= 3:
             break
     run.coverage["history_dependence_found"] = found
+
+
+def _siblings_and_process(run, cands) -> int:
+    """Two more replays of a history on which code and model disagree.  (1) Every call with ONLY what takes part in it — the aliases
+    its own hints name, its own declaration, the providers and their updates — compared with the same call inside the history (the
+    verdict inside = the last call of the prefix that ends with it): a difference means the verdict depends on annotation objects and
+    functions that take no part in the call.  (2) The whole history in a NEW interpreter: a difference means the verdict depends on
+    what this process checked before (a process-wide cache keyed by something that does not tell two annotations apart)."""
+    import re
+
+    import impl
+
+    found = 0
+
+    def last_call(steps):
+        parts = impl.handle("HIST\t" + "\t".join(steps)).split(" ## ")
+        return parts[-2] if len(parts) >= 2 and parts[-1].startswith("state") else None
+
+    for f in cands[:12]:
+        steps = f.case.line.split("\t")[1:]
+        c_idx = [i for i, s in enumerate(steps) if s.startswith("C|")]
+        for si in c_idx[:14]:
+            fid0 = steps[si].split("|")[1]
+            d0 = next((j for j in range(si - 1, -1, -1) if steps[j].startswith(f"D|{fid0}|")), None)
+            if d0 is None or steps[d0].split("|")[5] != "-" or steps[d0].split("|")[2].startswith("self"):
+                continue
+            used = set(re.findall(r"T\d+", "|".join(steps[d0].split("|")[3:5])))
+            minimal = [s for j, s in enumerate(steps[: si + 1]) if (s.startswith("A|") and s.split("|")[1] in used) or s.startswith(("V|", "S|")) or j == d0 or j == si]
+            inside, alone = last_call(steps[: si + 1]), last_call(minimal)
+            if inside is None or alone is None or inside == alone or inside.startswith(("decor", "unknown")) or alone.startswith(("decor", "unknown")):
+                continue
+            run.findings.append(Finding("failing-input",
+                f"the verdict of a call depends on annotation objects and functions that take no part in it: inside the history {inside!r}, with only its own aliases, declaration and "
+                f"providers {alone!r}", Case("HIST\t" + "\t".join(steps[: si + 1]), "sibling-dependence", {}), inside, "", "minimal: " + "HIST\t" + "\t".join(minimal) + " -> " + alone))
+            found += 1
+            break
+        if found >= 3:
+            return found
+    lines = [f.case.line for f in cands[:6]]
+    fresh = impl.fresh_process(lines) if lines else None
+    for f, fr in zip(cands[:6], fresh or []):
+        if fr != f.impl and not fr.startswith("harness-error"):
+            run.findings.append(Finding("failing-input",
+                "the verdicts of a history depend on what the process checked before it: after the other histories of this run the code gives the first output, "
+                f"in a new interpreter the second (the model gives {f.model[:160]!r})", Case(f.case.line, "process-dependence", {}), f.impl, fr, "fresh interpreter: " + fr))
+            found += 1
+            if found >= 3:
+                break
+    return found
 
 
 def reuse_and_late(run):
@@ -141,27 +209,33 @@ def reuse_and_late(run):
         # (built with exec: this module postpones the evaluation of annotations, the names must be found in the namespace)
         ns = {"typing": typing, "dataclasses": dataclasses, "F2": F2, "I1": I1}
         src = {
-            "nt": "class A(typing.NamedTuple):\n    data: F2\nclass B(typing.NamedTuple):\n    data: I1\n",
-            "dc": "@dataclasses.dataclass\nclass A:\n    data: F2\n@dataclasses.dataclass\nclass B:\n    data: I1\n",
-            "fn": "def A(data: F2) -> None:\n    return None\ndef B(data: I1) -> None:\n    return None\n",
+            "nt": "class A(typing.NamedTuple):\n    data: F2\nclass B(typing.NamedTuple):\n    data: I1\n"
+                  "class C(typing.NamedTuple):\n    first: F2\n    second: I1\nclass D(typing.NamedTuple):\n    second: F2\n",
+            "dc": "@dataclasses.dataclass\nclass A:\n    data: F2\n@dataclasses.dataclass\nclass B:\n    data: I1\n"
+                  "@dataclasses.dataclass\nclass C:\n    first: F2\n    second: I1\n@dataclasses.dataclass\nclass D:\n    second: F2\n",
+            "fn": "def A(data: F2) -> None:\n    return None\ndef B(data: I1) -> None:\n    return None\n"
+                  "def C(first: F2, second: I1) -> None:\n    return None\ndef D(second: F2) -> None:\n    return None\n",
         }[kind]
         exec(compile(src, "<reuse>", "exec", dont_inherit=True), ns)  # noqa: S102
-        A, B = ns["A"], ns["B"]
-        return dec()(A), dec()(B)
+        return {k: dec()(ns[k]) for k in "ABCD"}
 
     n = 0
     with warnings.catch_warnings():
         warnings.simplefilter("ignore")
         for kind in ("nt", "dc", "fn"):
-            sa, sb = build(kind, True)
-            fa, fb = build(kind, False)
-            for nm, v in vals.items():
-                for which, shared_obj, fresh_obj in (("first", sa, fa), ("second", sb, fb)):
-                    n += 1
-                    got, want = verdict(shared_obj, v), verdict(fresh_obj, v)
-                    if got != want:
-                        run.findings.append(Finding("failing-input", f"one {kind} decorator object applied to two definitions with a same-named `data`: the {which} one gives {got} for {nm}, "
-                                                    f"with a decorator object of its own {want}", Case(f"REUSE\t{kind}\t{which}\t{nm}", "reuse"), got, "", want))
+            # four definitions (A / B share the name `data`, C / D have names and counts of their own) through ONE decorator object,
+            # called in either order: whichever is called first must not decide what the others check
+            for order in ("ABCD", "DCBA", "CADB"):
+                shared, fresh = build(kind, True), build(kind, False)
+                for which in order:
+                    argsets = [(v,) for v in vals.values()] if which != "C" else [(a, b) for a in vals.values() for b in vals.values()]
+                    for args in argsets:
+                        n += 1
+                        got, want = verdict(shared[which], *args), verdict(fresh[which], *args)
+                        if got != want:
+                            nm = ",".join(k for a in args for k, v in vals.items() if v is a)
+                            run.findings.append(Finding("failing-input", f"one {kind} decorator object applied to four definitions (called in the order {order}): `{which}` gives {got} for ({nm}), "
+                                                        f"with a decorator object of its own {want}", Case(f"REUSE\t{kind}\t{order}\t{which}\t{nm}", "reuse"), got, "", want))
         # (a') a decorated dataclass deriving from a decorated dataclass: what the derived class checks must not depend on whether
         # its base was decorated before it, after it, or not at all
         verdicts = {}
@@ -203,11 +277,62 @@ def reuse_and_late(run):
     run.coverage["reuse_and_late_calls"] = n
 
 
+def value_dependent_annotation(run):
+    """A user subclass of a tensor type whose `check` looks at the VALUES (the documented extension point), shared through a type
+    alias by two functions and a dataclass: what an earlier call with an array of the same shape and dtype was told decides nothing
+    for a later array — every array is judged itself (no verdict is remembered per annotation / shape / dtype)."""
+    import dataclasses
+    import typing
+    import warnings
+
+    import numpy as np
+
+    dltype = impl.dltype
+
+    class NonNegative(dltype.FloatTensor):
+        def check(self, tensor, tensor_name="anonymous"):
+            super().check(tensor, tensor_name)
+            if (np.asarray(tensor) < 0).any():
+                raise ValueError(f"{tensor_name} has negative entries")
+
+    ns = {"typing": typing, "np": np, "dltype": dltype, "dataclasses": dataclasses, "NN": typing.Annotated[np.ndarray, NonNegative["n k"]]}
+    src = ("@dltype.dltyped()\ndef f(x: NN) -> NN:\n    return x\n@dltype.dltyped()\ndef g(y: NN, z: NN) -> None:\n    return None\n"
+           "@dltype.dltyped_dataclass()\n@dataclasses.dataclass\nclass D:\n    w: NN\n")
+    with warnings.catch_warnings():
+        warnings.simplefilter("ignore")
+        exec(compile(src, "<valuedep>", "exec", dont_inherit=True), ns)  # noqa: S102
+    good, bad, good2 = np.ones((2, 3), np.float32), -np.ones((2, 3), np.float32), np.zeros((2, 3), np.float32)
+    calls = {"f": lambda a: ns["f"](a), "g": lambda a: ns["g"](good2, a), "D": lambda a: ns["D"](a)}
+    n = 0
+    for order in (("f", "g", "D"), ("D", "g", "f"), ("g", "f", "D")):
+        for seq in (("good", "bad", "good"), ("bad", "good", "bad"), ("good", "good", "bad", "bad")):
+            for who in order:
+                for step, what in enumerate(seq):
+                    arr = {"good": good, "bad": bad}[what]
+                    try:
+                        calls[who](arr)
+                        got = "ok"
+                    except ValueError:
+                        got = "ValueError"
+                    except Exception as e:  # noqa: BLE001
+                        got = "EXC " + type(e).__name__
+                    n += 1
+                    want = "ok" if what == "good" else "ValueError"
+                    if got != want:
+                        run.findings.append(Finding("failing-input", f"an annotation class whose check() looks at the values, shared by f, g and a dataclass: call #{step} of {who} ({'>'.join(seq)}; "
+                                                    f"order {order}) with a {what} array of shape (2, 3) float32 gives {got}, its own check demands {want}",
+                                                    Case(f"VALUEDEP\t{'/'.join(order)}\t{who}\t{'>'.join(seq)}\t#{step}", "valuedep"), got, "", want))
+    run.n_cases += n
+    run.n_distinct_nontrivial += n
+    run.dist["value-dependent annotation"] += n
+
+
 def custom(run, tier):
     """threads: each thread's verdict vector equals its sequential one"""
     import numpy as np
 
     reuse_and_late(run)
+    value_dependent_annotation(run)
 
     dltype = impl.dltype
     from typing import Annotated
